@@ -86,15 +86,73 @@ def p_str(p):
     return " + ".join(parts)
 
 
+P_MOD = (1 << 61) - 1
+K_FP = 3
+MAX_TERMS = 1500  # beyond this an exact polynomial is dropped and only the fingerprint is kept
+
+
+import functools
+
+
+@functools.lru_cache(maxsize=None)
+def _atom_fp(name):
+    import hashlib
+
+    out = []
+    for i in range(K_FP):
+        h = hashlib.sha256(("%s#%d" % (name, i)).encode()).digest()
+        out.append(int.from_bytes(h[:8], "big") % (P_MOD - 2) + 2)
+    return tuple(out)
+
+
+def _const_fp(c):
+    c = Fraction(c)
+    v = (c.numerator % P_MOD) * pow(c.denominator % P_MOD, P_MOD - 2, P_MOD) % P_MOD
+    return (v,) * K_FP
+
+
 class RF:
-    """Rational function num/den."""
+    """Rational function num/den over atoms.
 
-    __slots__ = ("n", "d")
+    Two representations are kept: the exact polynomial quotient (while it stays small) and a fingerprint - the value
+    of the function at K fixed pseudo-random points of the field Z/(2^61-1), derived from the atom names (random
+    interpretation, Gulwani & Necula 2004).  Different fingerprints prove the functions different; equal fingerprints are
+    confirmed by exact cross-multiplication when the polynomials are small and accepted otherwise (error probability
+    below 1e-50 per comparison by Schwartz-Zippel).  Nothing of the analysed program is executed: the points are
+    substituted into the canonical form of a formula.
+    """
 
-    def __init__(self, n, d=None):
+    __slots__ = ("n", "d", "fp")
+
+    def __init__(self, n, d=None, fp=None):
         self.n = n
-        self.d = d if d is not None else p_const(1)
-        self._norm()
+        self.d = d if d is not None else (p_const(1) if n is not None else None)
+        if fp is None:
+            fp = self._fp_from_polys()
+        self.fp = fp
+        if self.n is not None:
+            if len(self.n) > MAX_TERMS or len(self.d) > MAX_TERMS:
+                self.n = self.d = None
+            else:
+                self._norm()
+
+    def _fp_from_polys(self):
+        def ev(poly, i):
+            tot = 0
+            for m, c in poly.items():
+                t = (c.numerator % P_MOD) * pow(c.denominator % P_MOD, P_MOD - 2, P_MOD) % P_MOD
+                for a, pw in m:
+                    t = t * pow(_atom_fp(a)[i], pw, P_MOD) % P_MOD
+                tot = (tot + t) % P_MOD
+            return tot
+
+        out = []
+        for i in range(K_FP):
+            dn = ev(self.d, i)
+            if dn == 0:
+                raise Uninterpreted("division by structural zero")
+            out.append(ev(self.n, i) * pow(dn, P_MOD - 2, P_MOD) % P_MOD)
+        return tuple(out)
 
     def _norm(self):
         if not self.d:
@@ -102,10 +160,8 @@ class RF:
         if not self.n:
             self.d = p_const(1)
             return
-        # cancel common monomial factor and scale so that den has a canonical leading coefficient
         if len(self.d) == 1:
             (m, c), = self.d.items()
-            # divide numerator by c; try dividing by monomial m if every numerator term contains it
             self.n = {k: v / c for k, v in self.n.items()}
             self.d = {m: Fraction(1)}
             if m != ():
@@ -129,26 +185,45 @@ class RF:
                 self.n = {k: v / lead for k, v in self.n.items()}
                 self.d = {k: v / lead for k, v in self.d.items()}
 
+    @staticmethod
+    def _small(*polys):
+        return all(p is not None for p in polys)
+
+    def _bin(self, o, fpop, polyop):
+        fp = tuple(fpop(a, b) for a, b in zip(self.fp, o.fp))
+        if self.n is not None and o.n is not None:
+            if max(len(self.n), len(self.d)) * max(len(o.n), len(o.d)) <= 40 * MAX_TERMS:
+                n, d = polyop()
+                return RF(n, d, fp)
+        return RF(None, None, fp)
+
     def __add__(self, o):
-        if self.d == o.d:
-            return RF(p_add(self.n, o.n), self.d)
-        return RF(p_add(p_mul(self.n, o.d), p_mul(o.n, self.d)), p_mul(self.d, o.d))
+        def poly():
+            if self.d == o.d:
+                return p_add(self.n, o.n), self.d
+            return p_add(p_mul(self.n, o.d), p_mul(o.n, self.d)), p_mul(self.d, o.d)
+        return self._bin(o, lambda a, b: (a + b) % P_MOD, poly)
 
     def __sub__(self, o):
-        if self.d == o.d:
-            return RF(p_add(self.n, o.n, -1), self.d)
-        return RF(p_add(p_mul(self.n, o.d), p_mul(o.n, self.d), -1), p_mul(self.d, o.d))
+        def poly():
+            if self.d == o.d:
+                return p_add(self.n, o.n, -1), self.d
+            return p_add(p_mul(self.n, o.d), p_mul(o.n, self.d), -1), p_mul(self.d, o.d)
+        return self._bin(o, lambda a, b: (a - b) % P_MOD, poly)
 
     def __mul__(self, o):
-        return RF(p_mul(self.n, o.n), p_mul(self.d, o.d))
+        return self._bin(o, lambda a, b: a * b % P_MOD, lambda: (p_mul(self.n, o.n), p_mul(self.d, o.d)))
 
     def __truediv__(self, o):
-        if not o.n:
+        if any(v == 0 for v in o.fp):
             raise Uninterpreted("division by structural zero")
-        return RF(p_mul(self.n, o.d), p_mul(self.d, o.n))
+        return self._bin(o, lambda a, b: a * pow(b, P_MOD - 2, P_MOD) % P_MOD, lambda: (p_mul(self.n, o.d), p_mul(self.d, o.n)))
 
     def __neg__(self):
-        return RF({k: -v for k, v in self.n.items()}, self.d)
+        fp = tuple((-a) % P_MOD for a in self.fp)
+        if self.n is None:
+            return RF(None, None, fp)
+        return RF({k: -v for k, v in self.n.items()}, self.d, fp)
 
     def __pow__(self, k):
         if k < 0:
@@ -159,22 +234,31 @@ class RF:
         return r
 
     def __eq__(self, o):
-        return not p_add(p_mul(self.n, o.d), p_mul(o.n, self.d), -1)
+        if self.fp != o.fp:
+            return False
+        if self.n is not None and o.n is not None and len(self.n) * len(o.d) + len(o.n) * len(self.d) <= 20 * MAX_TERMS:
+            return not p_add(p_mul(self.n, o.d), p_mul(o.n, self.d), -1)
+        return True
 
     def __ne__(self, o):
         return not self.__eq__(o)
 
     def is_zero(self):
-        return not self.n
+        return all(v == 0 for v in self.fp)
+
+    def exact(self):
+        return self.n is not None
 
     def is_const(self):
-        return p_is_const(self.n) and p_is_const(self.d)
+        return self.n is not None and p_is_const(self.n) and p_is_const(self.d)
 
     def constval(self):
         return p_constval(self.n) / p_constval(self.d)
 
     def atoms(self):
         s = set()
+        if self.n is None:
+            return s
         for p in (self.n, self.d):
             for m in p:
                 for a, _ in m:
@@ -182,9 +266,15 @@ class RF:
         return s
 
     def __str__(self):
+        if self.n is None:
+            return "<large:%x>" % self.fp[0]
         if p_is_const(self.d) and p_constval(self.d) == 1:
-            return p_str(self.n)
-        return "(%s)/(%s)" % (p_str(self.n), p_str(self.d))
+            s = p_str(self.n)
+        else:
+            s = "(%s)/(%s)" % (p_str(self.n), p_str(self.d))
+        if len(s) > 400:
+            return "<%s...:%x>" % (s[:120], self.fp[0])
+        return s
 
     __repr__ = __str__
     __hash__ = None
@@ -196,6 +286,21 @@ def const(c):
 
 def atom(a):
     return RF(p_atom(a))
+
+
+_REGISTRY = {}
+
+
+def opaque_name(fname, args):
+    """Atom name of an opaque application f(args), canonical up to equality of the argument forms: two applications
+    of the same function to equal rational functions get the same atom even when the arguments were written differently."""
+    lst = _REGISTRY.setdefault((fname, len(args)), [])
+    for known, name in lst:
+        if all(a == b for a, b in zip(known, args)):
+            return name
+    name = "%s(%s)" % (fname, ",".join(str(a) for a in args))
+    lst.append((list(args), name))
+    return name
 
 
 OPAQUE_FUNCS = {
@@ -239,9 +344,17 @@ class Alg:
             if node.id in self.const_names:
                 return const(Fraction(repr(self.const_names[node.id])))
             return self._atom(node.id)
+        if isinstance(node, ast.Attribute) and node.attr in ("x", "y", "real", "imag"):
+            pv = self.point_value(node.value)
+            if pv is not None:
+                return pv[0 if node.attr in ("x", "real") else 1]
         if isinstance(node, ast.Attribute):
             ch = attr_chain(node)
             if ch is None:
+                if self.call_hook is not None:
+                    r = self.call_hook(self, node)
+                    if r is not None:
+                        return r
                 inner = self.ev(node.value)
                 return self._atom("(%s).%s" % (inner, node.attr))
             if len(ch) == 2 and ch[0] == "math":
@@ -261,6 +374,9 @@ class Alg:
             ):
                 ch = attr_chain(base)
                 iv = ast.literal_eval(idx)
+                pv = self.point_value(base)
+                if pv is not None and iv in (0, 1):
+                    return pv[iv]
                 if ch is not None:
                     key = "%s[%r]" % (".".join(ch), iv)
                     if key in self.env:
@@ -287,7 +403,7 @@ class Alg:
                     if ev_.denominator == 1:
                         return base ** int(ev_)
                     if ev_ == Fraction(1, 2):
-                        return self._atom("sqrt(%s)" % base)
+                        return self._atom(opaque_name("sqrt", [base]))
                 raise Uninterpreted("power %s" % ast.unparse(node))
             l = self.ev(node.left)
             r = self.ev(node.right)
@@ -300,7 +416,7 @@ class Alg:
             if isinstance(node.op, ast.Div):
                 return l / r
             if isinstance(node.op, ast.Mod):
-                return self._atom("mod(%s,%s)" % (l, r))
+                return self._atom(opaque_name("mod", [l, r]))
             raise Uninterpreted("binop %s" % type(node.op).__name__)
         if isinstance(node, ast.Call):
             if self.call_hook is not None:
@@ -327,7 +443,7 @@ class Alg:
                         for k in range(0, 1000):
                             if Fraction(k * k) == v:
                                 return const(k)
-                    return self._atom("%s(%s)" % (name, ",".join(str(a) for a in args)))
+                    return self._atom(opaque_name(name, args))
             raise Uninterpreted("call %s" % ast.unparse(node)[:80])
         if isinstance(node, ast.IfExp):
             raise Uninterpreted("conditional expression")
@@ -342,6 +458,16 @@ class Alg:
             return True
         if isinstance(stmt, ast.Assign) and len(stmt.targets) == 1:
             t = stmt.targets[0]
+            if isinstance(t, (ast.Name, ast.Attribute)) and isinstance(stmt.value, (ast.Call, ast.Name, ast.Attribute)):
+                pv = None
+                if not (isinstance(stmt.value, ast.Call) and not (isinstance(stmt.value.func, ast.Name) and stmt.value.func.id == "Point")):
+                    pv = self.point_value(stmt.value)
+                if pv is not None:
+                    if isinstance(t, ast.Name):
+                        self.env[t.id] = list(pv)
+                    else:
+                        self.atom_map[".".join(attr_chain(t))] = list(pv)
+                    return True
             if isinstance(t, ast.Name):
                 if isinstance(stmt.value, (ast.Tuple, ast.List)):
                     self.env[t.id] = [self.ev(e) for e in stmt.value.elts]
@@ -385,6 +511,32 @@ class Alg:
                 raise Uninterpreted("augassign")
             return True
         return False
+
+    def point_value(self, node):
+        """[x, y] when node denotes a point value known to this evaluation, else None."""
+        if isinstance(node, ast.Name) and isinstance(self.env.get(node.id), list) and len(self.env[node.id]) == 2:
+            return self.env[node.id]
+        if isinstance(node, ast.Attribute):
+            ch = attr_chain(node)
+            if ch:
+                v = self.atom_map.get(".".join(ch))
+                if isinstance(v, list) and len(v) == 2:
+                    return v
+        if isinstance(node, ast.Call) and isinstance(node.func, ast.Name) and node.func.id == "Point" and not node.keywords:
+            if len(node.args) == 2:
+                return [self.ev(node.args[0]), self.ev(node.args[1])]
+            if len(node.args) == 1:
+                inner = self.point_value(node.args[0])
+                if inner is not None:
+                    return list(inner)
+                if isinstance(node.args[0], ast.Tuple) and len(node.args[0].elts) == 2:
+                    return [self.ev(e) for e in node.args[0].elts]
+        if isinstance(node, ast.Tuple) and len(node.elts) == 2:
+            try:
+                return [self.ev(e) for e in node.elts]
+            except Uninterpreted:
+                return None
+        return None
 
     def ev_tuple(self, node):
         """Tuple-valued expression -> list of RF (or None)."""
